@@ -434,7 +434,7 @@ mod tests {
         let mut n = 0;
         for_each_file_input(text, 0, u64::MAX, &mut |seq, _, s| {
             assert_eq!(seq, n);
-            assert!(s.len() <= text.len() + 4);
+            assert!(s.len() <= 2 * text.len() + 1);
             n += 1;
             true
         });
